@@ -88,6 +88,13 @@ impl Sender {
     pub fn is_flow(&self) -> bool {
         matches!(self, Sender::Flow(_))
     }
+    /// Advance out of the body-sending stage: Some(true) = advanced, Some(false) = refused.
+    pub fn advance(self) -> bool {
+        match self {
+            Sender::Flow(f) => lib("Flow<SendBody>::proceed", || f.proceed()).is_some(),
+            Sender::Call(c) => lib("Call<WithBody>::into_receive", || c.into_receive()).is_ok(),
+        }
+    }
     pub fn direct(&mut self, n: usize) -> Option<Result<(), Error>> {
         match self {
             Sender::Flow(f) => Some(lib("Flow<SendBody>::consume_direct_write", || f.consume_direct_write(n))),
@@ -119,6 +126,8 @@ pub enum SendFraming {
     ExplicitChunkedVariant(u8),
     /// caller supplied `content-length: n`
     Sized(u64),
+    /// `content-length: n` next to a transfer coding other than chunked
+    SizedWithOtherCoding(u64, u8),
 }
 
 /// Reach the body-sending state through the real API (setup; not the observed part).
@@ -150,6 +159,11 @@ pub fn reach_sender_ex(ctx: &mut Ctx, framing: SendFraming, use_call: bool, meth
             }
         }
         SendFraming::Sized(n) => headers.push(("content-length".into(), n.to_string().into_bytes())),
+        SendFraming::SizedWithOtherCoding(n, v) => {
+            // a transfer coding that is not "chunked" does not change the framing
+            headers.push(("transfer-encoding".into(), [&b"gzip"[..], b"chunked-v2", b"xchunked", b"chunke"][(v % 4) as usize].to_vec()));
+            headers.push(("content-length".into(), n.to_string().into_bytes()));
+        }
     }
     let via_added = via_added && !use_call;
     let added = if via_added { std::mem::take(&mut headers) } else { Vec::new() };
